@@ -20,6 +20,7 @@ import Cicada.Spec.C12
 import Cicada.Spec.C19
 import Cicada.Spec.C13
 import Cicada.Model.FdDriver
+import Cicada.Model.ScriptSessDriver
 import Cicada.Spec.C20
 import Cicada.Drive.C07
 /-!
@@ -961,6 +962,9 @@ def answer (stream : String) (f : Array String) : Ans :=
   | "fdsess" =>
     let r := FdDriver.run (g 7 = "script") ((g 0).toNat?.getD 0) (FdDriver.parseItems (g 1)) (FdDriver.strSet (g 2)) (FdDriver.strSet (g 3))
       (FdDriver.strSet (g 4)) (FdDriver.strSet (g 5)) (FdDriver.parseFiles (g 6))
+    { m := r.m, s := r.s, guard := if r.cls = "-" then "1" else "0", cls := r.cls }
+  | "ssess" =>
+    let r := ScriptSess.run (g 0) (g 1)
     { m := r.m, s := r.s, guard := if r.cls = "-" then "1" else "0", cls := r.cls }
   | "fdorder" =>
     let r := FdDriver.orderRun ((g 0).splitOn ",") (((g 1).splitOn ",").filterMap String.toNat?)
